@@ -37,7 +37,7 @@ def serial_case(rep, drv, rng):
 	try:
 		with warnings.catch_warnings():
 			warnings.simplefilter('ignore')
-			cst, cost = gsm_serial.optimize_committed_service_times(num_nodes=N, local_holding_cost=h, processing_time=T, demand_bound_constant=(zk if len(set(zk.values())) > 1 else z),
+			cst, cost = gsm_serial.optimize_committed_service_times(num_nodes=N, local_holding_cost=h, processing_time=T, demand_bound_constant=(zk if len(set(zk.values())) > 1 else list(zk.values())[0]),
 					external_outbound_cst=sOut, external_inbound_cst=sIn, demand_mean=10, demand_standard_deviation=sd)
 	except Exception as e:
 		rep.diff('gsm_serial', 'raised %s' % err_enum(e), case, oracle=True, theorem=THEOREM); return
